@@ -35,6 +35,8 @@ def _lex_variant(t, v):
     if issubclass(t, Boolean):
         return '1' if v else '0'
     if issubclass(t, Integer):
+        if getattr(t.Attributes, 'min_bound', None) is not None or getattr(t.Attributes, 'max_bound', None) is not None:
+            return None     # redundant characters on fixed-width integers: open finding C08-int-length-guard-redundant-chars
         return ('+0%d' % v) if v >= 0 else ('-00%d' % -v)
     if issubclass(t, Double):
         return None
